@@ -188,10 +188,69 @@ def c01(ctx):
                         cov["http_clones"] += 1
                     if len(samples) < 4:
                         samples.append({"chunker": k[0], "compression": k[1], "source": k[2], "input": k[3], "clone_over_http": k[4]})
+    if thorough:
+        big_source(bita, root, viol, cov)
     shutil.rmtree(root, ignore_errors=True)
     cov.update({"evaluations": len(cases), "distinct_nontrivial": len(distinct), "exhaustive": True, "samples": samples,
-                "rule": "real binary: {fixed, rollsum, buzhash, default parameters} x {none, brotli, zstd, lzma} x {empty, 1 byte, 40 B, 3 kB, 5 kB zeros (thorough: + >1 MiB)} x {file input, stdin input (quick: every 3rd)}: bita compress -> bita clone --verify-output (local / HTTP alternating) -> bytes, exit status, temp file removed, bita info; non-trivial = distinct cells that ran to the end"})
+                "rule": "real binary: {fixed, rollsum, buzhash, default parameters} x {none, brotli, zstd, lzma} x {empty, 1 byte, 40 B, 3 kB, 5 kB zeros (thorough: + >1 MiB)} x {file input, stdin input (quick: every 3rd)}: bita compress -> bita clone --verify-output (local / HTTP alternating) -> bytes, exit status, temp file removed, bita info; thorough: a sparse source of 4 GiB + 3 MiB + 12345 bytes with distinct chunks below / at / above offset 2^32, compressed, cloned and re-cloned in place over a prior output with two of them swapped; non-trivial = distinct cells that ran to the end"})
     return result(ctx["pid"], "exploration", cov, viol, t0, ["A5: real binary observed at process boundary"])
+
+
+def files_equal(a, b):
+    if os.path.getsize(a) != os.path.getsize(b):
+        return False
+    return subprocess.run(["cmp", "-s", a, b]).returncode == 0
+
+
+def big_source(bita, root, viol, cov):
+    """Source offsets beyond 2^32: a sparse source of 4 GiB + 3 MiB + 12345 bytes with distinct
+    chunks just below, at and above offset 2^32, compressed, cloned, and re-cloned in place over a
+    prior output in which two of those chunks are swapped."""
+    M = 1 << 20
+    size = (4 << 30) + 3 * M + 12345
+    d = os.path.join(root, "big")
+    os.makedirs(d)
+    src, arc, out, prior = (os.path.join(d, n) for n in ("src.img", "a.cba", "out.img", "prior.img"))
+    marks = [(5, b"five"), (4095, b"below"), (4096, b"at"), (4097, b"above")]
+    with open(src, "wb") as f:
+        f.truncate(size)
+        for idx, tag in marks:
+            f.seek(idx * M + 17)
+            f.write(tag * 1000)
+        f.seek(size - 100)
+        f.write(b"tail" * 25)
+    detail = {"case": "source of 4 GiB + 3 MiB + 12345 bytes, fixed 1 MiB chunks", "marks_at_chunk": [m[0] for m in marks]}
+    cov["big_source_bytes"] = size
+    r = sh([bita, "compress", "--fixed-size", "1MiB", "--compression", "none", "-i", src, arc], timeout=1200)
+    if r.returncode != 0:
+        viol.add("valid-compress-failed", dict(detail, stderr=r.stderr.decode()[-300:]))
+        return
+    r = sh([bita, "clone", arc, out], timeout=1200)
+    if r.returncode != 0:
+        viol.add("valid-clone-failed", dict(detail, stderr=r.stderr.decode()[-300:]))
+        return
+    if not files_equal(src, out):
+        viol.add("success-with-wrong-output", dict(detail, output_size=os.path.getsize(out)))
+    cov["big_source_clones"] = 1
+    # in place: the prior output holds the chunks "below" and "above" swapped and is 5 MiB longer
+    os.rename(out, prior)
+    with open(prior, "r+b") as f:
+        f.seek(4095 * M)
+        a = f.read(M)
+        f.seek(4097 * M)
+        b = f.read(M)
+        f.seek(4095 * M)
+        f.write(b)
+        f.seek(4097 * M)
+        f.write(a)
+        f.truncate(size + 5 * M)
+    r = sh([bita, "clone", "--seed-output", arc, prior], timeout=1200)
+    if r.returncode != 0:
+        viol.add("valid-clone-failed", dict(detail, step="in place", stderr=r.stderr.decode()[-300:]))
+        return
+    if not files_equal(src, prior):
+        viol.add("success-with-wrong-output", dict(detail, step="in place", output_size=os.path.getsize(prior)))
+    cov["big_source_clones"] = 2
 
 
 # ------------------------------------------------------------------ C02
